@@ -90,3 +90,78 @@ Definition check_imat (al : alg) (d : nat) (sd : side) (t : tol)
 
 Definition check_superpose (a b : zvec) (t : tol) (o : obs (seq dyad)) : bool :=
   cmp_res (cmp_vec t) (Ok (nowarn (vadd a b))) o.
+
+(* ---- special elements (C08) ---------------------------------------------- *)
+Inductive element := EIdentity | ENegIdentity | EZero | EAbsorbing.
+
+Definition hrr_element (el : element) (d : nat) : scaled zvec :=
+  match el with
+  | EIdentity => plain (hrr_identity _ d)
+  | ENegIdentity => plain (hrr_neg_identity _ d)
+  | EZero => plain (hrr_zero _ d)
+  | EAbsorbing => Scaled (hrr_absorbing_core _ d) 1 d
+  end.
+
+Definition alg_element (al : alg) (el : element) (d : nat) (sd : side)
+    : result (warned (scaled zvec)) :=
+  match al, el with
+  | AHrr, _ => Ok (nowarn (hrr_element el d))
+  | AVtb, EIdentity => vtb_identity _ d sd
+  | AVtb, ENegIdentity => vtb_neg_identity _ d sd
+  | AVtb, EZero => vtb_zero _ d sd
+  | AVtb, EAbsorbing => vtb_absorbing _ d sd
+  | ATvtb, EIdentity => tvtb_identity _ d sd
+  | ATvtb, ENegIdentity => tvtb_neg_identity _ d sd
+  | ATvtb, EZero => tvtb_zero _ d sd
+  | ATvtb, EAbsorbing => tvtb_absorbing _ d sd
+  end.
+
+Definition alg_sbind (al : alg) (x y : scaled zvec) : result (scaled zvec) :=
+  match al with
+  | AHrr => rmap (fun c => scale_mul (plain c) x y) (hrr_bind (core x) (core y))
+  | AVtb => vtb_sbind x y
+  | ATvtb => tvtb_sbind x y
+  end.
+
+Definition check_element (al : alg) (el : element) (d : nat) (sd : side) (t : tol)
+    (o : obs (seq dyad)) : bool :=
+  cmp_res (cmp_svec t) (alg_element al el d sd) o.
+
+(* bind of two scaled operands (the implementation was given their float values) *)
+Definition check_sbind (al : alg) (x y : scaled zvec) (t : tol) (o : obs (seq dyad)) : bool :=
+  cmp_res (cmp_svec t) (rmap (@nowarn _) (alg_sbind al x y)) o.
+
+(* bind(bind(a, v), w) for scaled operands *)
+Definition check_sbind3 (al : alg) (a v w : scaled zvec) (t : tol) (o : obs (seq dyad)) : bool :=
+  cmp_res (cmp_svec t)
+    (rmap (@nowarn _) (rbind (alg_sbind al a v) (fun r => alg_sbind al r w))) o.
+(* bind(w, bind(v, a)) *)
+Definition check_sbind3l (al : alg) (w v a : scaled zvec) (t : tol) (o : obs (seq dyad)) : bool :=
+  cmp_res (cmp_svec t)
+    (rmap (@nowarn _) (rbind (alg_sbind al v a) (fun r => alg_sbind al w r))) o.
+
+Definition sc (c : zvec) (n d : nat) : scaled zvec := Scaled c n d.
+
+Definition alg_sinvert (al : alg) (v : scaled zvec) (sd : side)
+    : result (warned (scaled zvec)) :=
+  rmap (fun w => Warned (Scaled (wval w) (rnum v) (rden v)) (wdep w))
+       (alg_invert al (core v) sd).
+
+(* bind(bind(a, v), invert(v, side)) *)
+Definition check_unbind_r (al : alg) (a v : scaled zvec) (sd : side) (t : tol)
+    (o : obs (seq dyad)) : bool :=
+  cmp_res (cmp_svec t)
+    (rbind (alg_sinvert al v sd) (fun w =>
+     rbind (alg_sbind al a v) (fun r =>
+     rmap (fun x => Warned x (wdep w)) (alg_sbind al r (wval w))))) o.
+(* bind(invert(v, side), bind(v, a)) *)
+Definition check_unbind_l (al : alg) (a v : scaled zvec) (sd : side) (t : tol)
+    (o : obs (seq dyad)) : bool :=
+  cmp_res (cmp_svec t)
+    (rbind (alg_sinvert al v sd) (fun w =>
+     rbind (alg_sbind al v a) (fun r =>
+     rmap (fun x => Warned x (wdep w)) (alg_sbind al (wval w) r)))) o.
+
+(* property-level: the observed vector is (close to) a given integer vector *)
+Definition check_is (a : zvec) (t : tol) (o : obs (seq dyad)) : bool :=
+  match o with OVal x _ => close_vec x a t | _ => false end.
